@@ -326,9 +326,305 @@ def r2_reference(ctx, F):
     ctx.floor("hash-procedures-equal-to-reference", n_ok, 5)
 
 
+# ---- R3: sha256::hash_memory - padding arithmetic for every length residue, and the loop body is one compression ----------
+class Aff:
+    """integer value  sum(coef[s] * s) + const  over the symbols q (len = 64*q + r) and addr; `mod32`: known modulo 2^32 only"""
+    __slots__ = ("co", "k", "mod32")
+
+    def __init__(self, co=None, k=0, mod32=False):
+        self.co = {s_: c_ for s_, c_ in (co or {}).items() if c_}
+        self.k, self.mod32 = k, mod32
+
+    def add(self, o, sign=1):
+        co = dict(self.co)
+        for s_, c_ in o.co.items():
+            co[s_] = co.get(s_, 0) + sign * c_
+        return Aff(co, self.k + sign * o.k, self.mod32 or o.mod32)
+
+    def const(self):
+        return self.k if not self.co and not self.mod32 else None
+
+    def key(self):
+        return (tuple(sorted(self.co.items())), self.k)
+
+    def __eq__(self, o):
+        return isinstance(o, Aff) and self.key() == o.key()
+
+    def __hash__(self):
+        return hash(self.key())
+
+    def __repr__(self):
+        t = ["%d*%s" % (c_, s_) for s_, c_ in sorted(self.co.items())] + ([str(self.k)] if self.k or not self.co else [])
+        return " + ".join(t) + (" (mod 2^32)" if self.mod32 else "")
+
+
+class AffExec:
+    """straight-line interpretation of the arithmetic prefix of hash_memory on affine values; memory words at affine addresses"""
+    def __init__(self, path):
+        self.path = path
+        self.loc = {}
+        self.mem = {}          # Aff address -> [4 values in stack order]
+        self.n = 0
+
+    def elem(self, a, i):
+        return ("mem", a.key(), i)
+
+    def word(self, a):
+        if a not in self.mem:
+            self.mem[a] = [self.elem(a, i) for i in range(4)]
+        return self.mem[a]
+
+    def divisible(self, v, m, ln, ins):
+        if not isinstance(v, Aff) or any(c_ % m for c_ in v.co.values()):
+            raise Undecided("%s:%d: %s of %r" % (self.path, ln, ins, v))
+
+    def step(self, ins, ln, st):
+        parts = ins.split(".")
+        op, imm = parts[0], parts[1:]
+        A = lambda n: Aff({}, n)
+        if op == "push":
+            for x in imm:
+                st.insert(0, A(int(x, 16) if x.startswith("0x") else int(x)))
+        elif op == "loc_store":
+            self.loc[int(imm[0])] = st.pop(0)
+        elif op == "loc_load":
+            st.insert(0, self.loc[int(imm[0])])
+        elif op == "locaddr":
+            st.insert(0, ("locaddr", int(imm[0])))
+        elif op in ("u32assert", "u32assert2"):
+            pass
+        elif op in ("u32wrapping_sub", "u32wrapping_add", "u32overflowing_add", "u32overflowing_sub"):
+            b = A(int(imm[0])) if imm else st.pop(0)
+            a = st.pop(0)
+            sign = -1 if "sub" in op else 1
+            if isinstance(a, tuple) and a[0] == "locaddr" and isinstance(b, Aff) and b.const() is not None:
+                st.insert(0, ("locaddr", a[1] + sign * b.const()))
+                return
+            if isinstance(a, tuple) and a[0] == "mem" and isinstance(b, Aff):
+                st.insert(0, ("sum", a, b))
+                return
+            if not (isinstance(a, Aff) and isinstance(b, Aff)):
+                raise Undecided("%s:%d: %s of %r and %r" % (self.path, ln, ins, a, b))
+            r = a.add(b, sign)
+            if op.startswith("u32wrapping"):
+                r = Aff(r.co, r.k, True) if (sign < 0 or True) and (r.co or r.k < 0 or r.k >= 2 ** 32) and sign < 0 and not imm else r
+            st.insert(0, r)
+            if op.startswith("u32overflowing"):
+                st.insert(0, ("carry", ln))
+        elif op in ("assertz", "assert"):
+            v = st.pop(0)
+            if not (isinstance(v, tuple) and v[0] == "carry"):
+                raise Undecided("%s:%d: %s on %r" % (self.path, ln, op, v))
+        elif op == "u32overflowing_mul":
+            a = st.pop(0)
+            m = int(imm[0])
+            st.insert(0, Aff({s_: c_ * m for s_, c_ in a.co.items()}, a.k * m, a.mod32))
+            st.insert(0, ("carry", ln))
+        elif op == "u32and":
+            b, a = st.pop(0), st.pop(0)
+            m = b.const() if isinstance(b, Aff) else None
+            if m is None or (m + 1) & m:
+                raise Undecided("%s:%d: u32and with %r" % (self.path, ln, b))
+            self.divisible(a, m + 1, ln, ins)
+            st.insert(0, A(a.k % (m + 1)))
+        elif op in ("u32div", "u32mod"):
+            a = st.pop(0)
+            m = int(imm[0])
+            if isinstance(a, Aff) and a.mod32:
+                raise Undecided("%s:%d: %s of a wrapped value" % (self.path, ln, ins))
+            self.divisible(a, m, ln, ins)
+            if a.k < 0:
+                raise Undecided("%s:%d: %s of a possibly negative value" % (self.path, ln, ins))
+            st.insert(0, Aff({s_: c_ // m for s_, c_ in a.co.items()}, a.k // m) if op == "u32div" else A(a.k % m))
+        elif op == "u32shr":
+            n_, a = st.pop(0), st.pop(0)
+            if not (isinstance(n_, Aff) and n_.const() is not None and isinstance(a, Aff) and a.const() is not None):
+                raise Undecided("%s:%d: u32shr of %r by %r" % (self.path, ln, a, n_))
+            st.insert(0, A(a.const() >> n_.const()))
+        elif op == "swap":
+            st[0], st[1] = st[1], st[0]
+        elif op == "dup":
+            st.insert(0, st[int(imm[0]) if imm else 0])
+        elif op == "drop":
+            st.pop(0)
+        elif op == "dropw":
+            del st[:4]
+        elif op == "padw":
+            st[:0] = [A(0)] * 4
+        elif op == "movup":
+            st.insert(0, st.pop(int(imm[0])))
+        elif op == "movdn":
+            st.insert(int(imm[0]), st.pop(0))
+        elif op == "mem_loadw":
+            a = st.pop(0)
+            if not isinstance(a, Aff):
+                raise Undecided("%s:%d: mem_loadw at %r" % (self.path, ln, a))
+            st[:4] = list(self.word(Aff(a.co, a.k)))
+        elif op == "mem_storew":
+            a = st.pop(0)
+            if not isinstance(a, Aff):
+                raise Undecided("%s:%d: mem_storew at %r" % (self.path, ln, a))
+            self.mem[Aff(a.co, a.k)] = list(st[:4])
+        elif op == "mem_load":
+            a = st.pop(0)
+            if not (isinstance(a, tuple) and a[0] == "locaddr"):
+                raise Undecided("%s:%d: mem_load at %r" % (self.path, ln, a))
+            st.insert(0, self.loc[a[1]])
+        elif op == "mem_store":
+            a = st.pop(0)
+            v = st.pop(0)
+            if not (isinstance(a, tuple) and a[0] == "locaddr"):
+                raise Undecided("%s:%d: mem_store at %r" % (self.path, ln, a))
+            self.loc[a[1]] = v
+        else:
+            raise Undecided("%s:%d: instruction %s is outside the affine model" % (self.path, ln, ins))
+
+
+def r3_hash_memory(ctx, F):
+    path = os.path.join(DIR, "sha256.masm")
+    rel = path.replace("/repo/", "")
+    try:
+        M = Module(path)
+    except (MasmError, OSError) as e:
+        ctx.violation("UNANALYSABLE|sha256::hash_memory", rel, str(e)[:200])
+        return
+    if "hash_memory" not in M.procs:
+        ctx.violation("hash-procedure-missing|sha256::hash_memory", rel, "sha256::hash_memory not found")
+        return
+    p = M.procs["hash_memory"]
+    loc = "%s:%d" % (rel, p.line)
+    wi = [i for i, n in enumerate(p.body) if n[0] == "while"]
+    if len(wi) != 1:
+        ctx.violation("UNANALYSABLE|sha256::hash_memory", loc, "expected exactly one loop")
+        return
+    # the arithmetic prefix ends where the initial hash state is pushed (the eight constants of FIPS 180-4)
+    pre, loop = p.body[:wi[0]], p.body[wi[0]]
+    h0 = {"0x%08x" % x for x in hashref.SHA_H0}
+    cut = next((i for i, n in enumerate(pre) if n[0] == "ins" and n[1].startswith("push.") and set(n[1].split(".")[1:]) & h0), None)
+    if cut is None:
+        ctx.violation("UNANALYSABLE|sha256::hash_memory", loc, "initial hash state not found before the loop")
+        return
+    init = [x for n in pre[cut:] if n[0] == "ins" and n[1].startswith("push.0x") for x in n[1].split(".")[1:]]
+    ctx.inst(key="hash_memory|initial-state", nontrivial=True)
+    oki = [int(x, 16) for x in init][::-1] == hashref.SHA_H0
+    ctx.oblig(oki)
+    if not oki:
+        ctx.violation("hash-memory-initial-state", loc, "the state pushed before the loop is %s (top first: %s); FIPS 180-4 H(0) = %s" % (init, init[::-1], ["0x%08x" % x for x in hashref.SHA_H0]))
+    bad_seen = set()
+    for r in range(64):
+        ctx.inst(key="hash_memory|len=64q+%d" % r, nontrivial=True)
+        X = AffExec(path)
+        st = [Aff({"addr": 1}, 0), Aff({"q": 64}, r)] + [("below", i) for i in range(16)]
+        try:
+            for n in pre[:cut]:
+                if n[0] != "ins":
+                    raise Undecided("control flow in the prefix")
+                X.step(n[1], n[2], st)
+        except (Undecided, KeyError, IndexError, AttributeError) as e:
+            ctx.violation("UNANALYSABLE|sha256::hash_memory|prefix", loc, "len = 64q + %d: %s" % (r, str(e)[:250]))
+            return
+        blocks = (r + 9 + 63) // 64
+        padded = Aff({"q": 64}, 64 * blocks)
+        want = {"padded length (local 2)": (X.loc.get(2), padded),
+                "number of blocks (local 7)": (X.loc.get(7), Aff({"q": 1}, blocks)),
+                "address of the last padding word (local 3)": (X.loc.get(3), Aff({"addr": 1, "q": 4}, 4 * blocks - 1)),
+                "padding byte aligned in its word (local 4)": (X.loc.get(4), Aff({}, 0x80000000 >> (8 * (r % 4)))),
+                "word offset of the first padding byte (local 5)": (X.loc.get(5), Aff({}, (r // 4) % 4)),
+                "address of the first padding byte (local 6)": (X.loc.get(6), Aff({"addr": 1, "q": 4}, r // 16))}
+        for what, (got, exp) in want.items():
+            ok = isinstance(got, Aff) and got.key() == exp.key()
+            ctx.oblig(ok)
+            if not ok and what not in bad_seen:
+                bad_seen.add(what)
+                ctx.violation("hash-memory-padding|%s" % what.split(" (")[0].replace(" ", "-"), loc,
+                              "sha256::hash_memory for a message of len = 64*q + %d bytes: %s is %r; SHA-256 padding (0x80, zeros, 64-bit length; total a multiple of 64 bytes) requires %r" % (r, what, got, exp))
+        # memory effect: 0x80 byte added at message word len/4, bit length in the last word; everything else untouched
+        a6, a3 = Aff({"addr": 1, "q": 4}, r // 16), Aff({"addr": 1, "q": 4}, 4 * blocks - 1)
+        exp_mem = {}
+        w6 = [X.elem(a6, i) for i in range(4)]
+        w6[(r // 4) % 4] = ("sum", w6[(r // 4) % 4], Aff({}, 0x80000000 >> (8 * (r % 4))))
+        exp_mem[a6] = w6
+        w3 = list(exp_mem.get(a3, [X.elem(a3, i) for i in range(4)]))
+        w3[3] = Aff({"q": 512}, 8 * r)
+        exp_mem[a3] = w3
+        okm = {k_: v_ for k_, v_ in X.mem.items()} == exp_mem
+        ctx.oblig(okm)
+        if not okm and "mem" not in bad_seen:
+            bad_seen.add("mem")
+            ctx.violation("hash-memory-padding|memory", loc, "sha256::hash_memory for len = 64*q + %d writes %s; expected the padding byte added to message word len/4 and the bit length in the last word of the padded message: %s" % (r, {repr(k_): v_ for k_, v_ in X.mem.items()}, {repr(k_): v_ for k_, v_ in exp_mem.items()}))
+    # the loop body: one compression of the 16 words at the current address (message word i = item i%4, in stack order, of the
+    # memory word at address + i/4), address advanced by 4, block counter decremented
+    ctx.inst(key="hash_memory|loop-body", nontrivial=True)
+    c = bvexec.Ctx()
+    state = [c.input_word("h%d" % i) for i in range(8)]
+    block = [c.input_word("w%d" % i) for i in range(16)]
+
+    class LoopExec(bvexec.Exec):
+        def step(self_, ins, ln, stack, frame, pname, depth):
+            op = ins.split(".")[0]
+            if pname == "hash_memory":
+                # addresses and the counter are opaque here; only the data flow into the compression is followed
+                if ins.startswith("loc_load.") or ins.startswith("loc_store."):
+                    k = int(ins.split(".")[1])
+                    if ins.startswith("loc_load."):
+                        stack.insert(0, ("local", k, self_.locs.get(k, 0)))
+                    else:
+                        v = stack.pop(0)
+                        self_.locs[k] = v
+                        self_.loc_writes.append((k, v))
+                    return
+                if op in ("u32assert", "assertz", "u32assert2"):
+                    if op == "assertz":
+                        stack.pop(0)
+                    return
+                if op in ("u32overflowing_add", "u32overflowing_sub") and isinstance(stack[0], tuple) and stack[0][0] in ("local", "offs"):
+                    v = stack.pop(0)
+                    d = int(ins.split(".")[1]) * (1 if "add" in op else -1)
+                    base = v if v[0] == "local" else v[1]
+                    off = d + (v[2] if v[0] == "offs" else 0)
+                    stack.insert(0, ("offs", base, off))
+                    stack.insert(0, ("carry", ln))
+                    return
+                if op == "mem_loadw" and isinstance(stack[0], tuple) and stack[0][0] == "offs":
+                    a = stack.pop(0)
+                    if a[1][:2] != ("local", 0) or not 0 <= a[2] <= 3:
+                        raise Undecided("%s:%d: block word loaded from %r" % (self_.m.path, ln, a))
+                    self_.loads.append(a[2])
+                    stack[:4] = block[4 * a[2]:4 * a[2] + 4]
+                    return
+                if op == "dup" and isinstance(stack[0], tuple):
+                    stack.insert(0, stack[0])
+                    return
+                if op == "neq":
+                    stack.pop(0)
+                    stack.insert(0, ("flag",))
+                    return
+            return bvexec.Exec.step(self_, ins, ln, stack, frame, pname, depth)
+    X = LoopExec(M, c, rules_c05.family_expected)
+    X.locs, X.loc_writes, X.loads = {}, [], []
+    stack = list(state) + [("below", i) for i in range(24)]
+    try:
+        X.block(loop[1], stack, X.new_frame(), "hash_memory", 0)
+    except (Undecided, MasmError, IndexError, AttributeError, TypeError) as e:
+        ctx.violation("UNANALYSABLE|sha256::hash_memory|loop", loc, str(e)[:300])
+        return
+    want = hashref.sha256_compress(c, state, block)
+    okb = stack[0] == ("flag",) and all(isinstance(stack[1 + i], bvexec.BV) and stack[1 + i] == want[i] for i in range(8)) and stack[9:13] == [("below", i) for i in range(4)]
+    ctx.oblig(okb)
+    if not okb:
+        ctx.violation("hash-memory-loop|compression", loc, "one iteration of the loop of sha256::hash_memory does not replace the state by the SHA-256 compression of the 16 words at the current address")
+    adv = [v for k, v in X.loc_writes if k == 0]
+    cnt = [v for k, v in X.loc_writes if k == 7]
+    oka = adv == [("offs", ("local", 0, 0), 4)] and cnt == [("offs", ("local", 7, 0), -1)] and sorted(X.loads) == [0, 1, 2, 3]
+    ctx.oblig(oka)
+    if not oka:
+        ctx.violation("hash-memory-loop|counters", loc, "one iteration must read the four memory words at address+0..3, advance the address (local 0) by 4 and decrement the block counter (local 7) by 1: address %s, counter %s, words read %s" % (adv, cnt, X.loads))
+
+
 def run(ctx, F):
     ctx.trusted += ["vlib/masm.py parser; stack effects from docs/src/user_docs/assembly (validated against the assembler and handlers by C05) and C05's data-movement table"]
     ctx.assumptions += ["equality of the digests with the reference hash functions is NOT decided (numerical); decided is the history independence of procedure-local memory, a necessary condition of it",
                         "accesses through addresses the analysis cannot resolve are counted in the evidence and not judged"]
     ctx.run_rule("C17-R2", "sha256::hash_2to1/hash_1to1, blake3::hash_2to1/hash_1to1, keccak256::hash: bit-level symbolic execution (ANF over GF(2), additions as hash-consed nodes) yields exactly the canonical form of the reference definition (FIPS 180-4, BLAKE3 spec, Keccak) on symbolic inputs", r2_reference, F)
+    ctx.run_rule("C17-R3", "sha256::hash_memory: for every length residue len = 64q + r the padded length, block count, padding addresses and padding writes are those of SHA-256 padding (affine interpretation of the arithmetic prefix), the initial state is H(0), and one loop iteration is one compression of the 16 words at the current address with the address advanced by 4 and the counter decremented", r3_hash_memory, F)
     ctx.run_rule("C17-R1", "no hash procedure reads a procedure local (directly or through locaddr-derived addresses, across exec) before writing it in the same activation", r1_locals, F)
